@@ -565,8 +565,14 @@ pub fn bzip2(data: &[u8]) -> Option<Vec<u8>> {
     use std::io::Write;
     use std::process::{Command, Stdio};
     let mut c = Command::new("bzip2").arg("-c").stdin(Stdio::piped()).stdout(Stdio::piped()).stderr(Stdio::null()).spawn().ok()?;
-    c.stdin.take()?.write_all(data).ok()?;
+    // feed stdin from another thread: with more than a pipe buffer of data both pipes fill up otherwise
+    let mut stdin = c.stdin.take()?;
+    let input = data.to_vec();
+    let feeder = std::thread::spawn(move || {
+        let _ = stdin.write_all(&input);
+    });
     let out = c.wait_with_output().ok()?;
+    let _ = feeder.join();
     if out.status.success() {
         Some(out.stdout)
     } else {
